@@ -231,6 +231,9 @@ func (p *Program) resolve(v ssa.Value) ssa.Value {
 			if sc == nil || !p.transparent(sc) || sc.Signature.Results().Len() != 1 {
 				return v
 			}
+			if o := sc.Origin(); o != nil {
+				sc = o
+			}
 			rets := returnsOf(sc)
 			if len(rets) != 1 {
 				return v
@@ -244,6 +247,9 @@ func (p *Program) resolve(v ssa.Value) ssa.Value {
 			sc := c.Common().StaticCallee()
 			if sc == nil || !p.transparent(sc) {
 				return v
+			}
+			if o := sc.Origin(); o != nil {
+				sc = o
 			}
 			rets := returnsOf(sc)
 			if len(rets) != 1 || x.Index >= len(rets[0].Results) {
@@ -545,6 +551,9 @@ func (p *Program) collectCalls(fn *ssa.Function, out *[]*callSite, depth int) {
 			}
 			if c, isCall := in.(*ssa.Call); isCall && depth < 6 {
 				if sc := c.Common().StaticCallee(); sc != nil && p.transparent(sc) {
+					if o := sc.Origin(); o != nil {
+						sc = o
+					}
 					p.collectCalls(sc, out, depth+1)
 					continue
 				}
